@@ -396,10 +396,10 @@ Lemma look_acol2 m ns room b' ns' r' :
   = if str_eqb ns ns' then (if room_eqb room r' then b' else look m ns r') else look m ns' r'.
 Proof.
   intros HS Hr Hr'. unfold look at 1. unfold nsmap at 1. cbn [set_rooms rooms].
-  rewrite (e_agetd_acol str_eqb str_eqb_eq) by apply HS.
+  rewrite (e_agetd_acol (W:=pv * bidict) str_eqb str_eqb_eq) by apply HS.
   destruct (str_eqb ns ns') eqn:E; [|reflexivity].
   destruct (struct_nsmap m ns HS) as (H1 & H2 & _).
-  rewrite (agetd_acol room_eqb room_ok room_spec); auto.
+  rewrite (agetd_acol (W:=str * str) room_eqb room_ok room_spec); auto.
 Qed.
 
 Lemma bd_get_aset b sid eio s' :
@@ -498,4 +498,220 @@ Proof.
   intros Er Hp ((H1 & H2 & _) & HS). split.
   - unfold Struct. rewrite Er. auto.
   - unfold Sem. rewrite (mem_ext _ _ Er). exact HS.
+Qed.
+
+(* ================================================================== *)
+(* 3. the operations: structure, membership equation, invariant        *)
+(* ================================================================== *)
+
+Lemma cond3_true ns ns' room r' sid s' :
+  room_ok room -> room_ok r' ->
+  str_eqb ns ns' && room_eqb room r' && str_eqb sid s' = true -> ns = ns' /\ room = r' /\ sid = s'.
+Proof.
+  intros Hr Hr' H. apply andb_true_iff in H as [H H3]. apply andb_true_iff in H as [H1 H2].
+  apply str_eqb_eq in H1, H3. apply room_spec in H2; auto.
+Qed.
+
+(* ---- leave_room ---- *)
+Lemma leave_room_main m sid ns room rm b e0 :
+  aget str_eqb (rooms m) ns = Some rm -> aget room_eqb rm room = Some b -> bd_get b sid = Some e0 ->
+  leave_room m sid ns room =
+  set_rooms m (acol str_eqb (rooms m) ns (acol room_eqb rm room (adel str_eqb b sid))).
+Proof.
+  intros E1 E2 E3. unfold leave_room, ns_rooms. rewrite E1, E2, E3. unfold acol, roommap, bidict in *.
+  destruct (adel str_eqb b sid) as [|x b'].
+  - destruct (adel room_eqb rm room); reflexivity.
+  - destruct (aset room_eqb rm room (x :: b')); reflexivity.
+Qed.
+
+Lemma leave_room_spec m sid ns room :
+  Struct m -> room_ok room ->
+  let m' := leave_room m sid ns room in
+  Struct m' /\ pending m' = pending m /\ callbacks m' = callbacks m /\
+  rem_eq m m' (fun ns' r' s' => str_eqb ns ns' && room_eqb room r' && str_eqb sid s').
+Proof.
+  intros HS Hr m'. subst m'.
+  assert (Hnoop : mem m ns room sid = None ->
+                  rem_eq m m (fun ns' r' s' => str_eqb ns ns' && room_eqb room r' && str_eqb sid s')).
+  { intros Hn ns' r' s' Hr'.
+    destruct (str_eqb ns ns' && room_eqb room r' && str_eqb sid s') eqn:C; [|reflexivity].
+    apply cond3_true in C as (-> & -> & ->); auto. }
+  destruct (aget str_eqb (rooms m) ns) as [rm|] eqn:Ens.
+  2: { assert (leave_room m sid ns room = m) as -> by (unfold leave_room, ns_rooms; rewrite Ens; reflexivity).
+       split; [exact HS|split; [reflexivity|split; [reflexivity|]]]. apply Hnoop. unfold mem, look, nsmap, agetd. rewrite Ens. reflexivity. }
+  destruct (aget room_eqb rm room) as [b|] eqn:Er.
+  2: { assert (leave_room m sid ns room = m) as -> by (unfold leave_room, ns_rooms; rewrite Ens, Er; reflexivity).
+       split; [exact HS|split; [reflexivity|split; [reflexivity|]]]. apply Hnoop. unfold mem, look, nsmap, agetd. rewrite Ens, Er. reflexivity. }
+  destruct (bd_get b sid) as [e0|] eqn:Es.
+  2: { assert (leave_room m sid ns room = m) as -> by (unfold leave_room, ns_rooms; rewrite Ens, Er, Es; reflexivity).
+       split; [exact HS|split; [reflexivity|split; [reflexivity|]]]. apply Hnoop. unfold mem, look, nsmap, agetd. rewrite Ens, Er. exact Es. }
+  rewrite (leave_room_main _ _ _ _ _ _ _ Ens Er Es).
+  assert (Hrm : rm = nsmap m ns) by (unfold nsmap, agetd; rewrite Ens; reflexivity).
+  assert (Hb : b = look m ns room) by (unfold look, agetd; rewrite <- Hrm, Er; reflexivity).
+  rewrite Hrm.
+  assert (Hbd : bd_ok b) by (rewrite Hb; apply struct_look, HS).
+  split; [|split; [reflexivity|split; [reflexivity|]]].
+  - apply struct_set_acol; [exact HS|]. apply rm_ok_acol; [apply struct_nsmap; exact HS|exact Hr|].
+    unfold bd_ok. apply nodup_adel. exact Hbd.
+  - intros ns' r' s' Hr'. unfold mem at 1. rewrite look_acol2 by assumption.
+    destruct (str_eqb ns ns') eqn:E1; cbn [andb]; [|reflexivity].
+    apply str_eqb_eq in E1. subst ns'.
+    destruct (room_eqb room r') eqn:E2; cbn [andb]; [|reflexivity].
+    apply room_spec in E2; auto. subst r'.
+    rewrite bd_get_adel by exact Hbd. rewrite Hb. reflexivity.
+Qed.
+
+(* ---- put_member (the body of basic_enter_room) ---- *)
+Lemma put_member_unfold m ns room sid eio :
+  put_member m ns room sid eio =
+  match bd_put (look m ns room) sid eio with
+  | Some b' => (set_rooms m (aset str_eqb (rooms m) ns (aset room_eqb (nsmap m ns) room b')), true)
+  | None => (set_rooms m (aset str_eqb (rooms m) ns (aset room_eqb (nsmap m ns) room (look m ns room))), false)
+  end.
+Proof. reflexivity. Qed.
+
+Lemma put_same m ns room :
+  Struct m -> room_ok room ->
+  let m' := set_rooms m (aset str_eqb (rooms m) ns (aset room_eqb (nsmap m ns) room (look m ns room))) in
+  Struct m' /\ same_mem m m'.
+Proof.
+  intros HS Hr m'. subst m'. split.
+  - apply struct_set_aset; [exact HS|]. apply rm_ok_aset; [apply struct_nsmap, HS|exact Hr|apply struct_look, HS].
+  - intros ns' r' s' Hr'. unfold mem at 1. rewrite look_aset2 by assumption.
+    destruct (str_eqb ns ns') eqn:E1; [|reflexivity]. apply str_eqb_eq in E1. subst ns'.
+    destruct (room_eqb room r') eqn:E2; [|reflexivity]. apply room_spec in E2; auto. subst r'. reflexivity.
+Qed.
+Lemma put_ins m ns room sid eio :
+  Struct m -> room_ok room ->
+  let m' := set_rooms m (aset str_eqb (rooms m) ns
+                           (aset room_eqb (nsmap m ns) room (aset str_eqb (look m ns room) sid eio))) in
+  Struct m' /\ ins_eq m m' ns room sid eio.
+Proof.
+  intros HS Hr m'. subst m'. split.
+  - apply struct_set_aset; [exact HS|]. apply rm_ok_aset; [apply struct_nsmap, HS|exact Hr|].
+    unfold bd_ok. apply (e_nodup_aset str_eqb str_eqb_eq). apply struct_look, HS.
+  - intros ns' r' s' Hr'. unfold mem at 1. rewrite look_aset2 by assumption.
+    destruct (str_eqb ns ns') eqn:E1; cbn [andb]; [|reflexivity]. apply str_eqb_eq in E1. subst ns'.
+    destruct (room_eqb room r') eqn:E2; cbn [andb]; [|reflexivity]. apply room_spec in E2; auto. subst r'.
+    rewrite bd_get_aset. reflexivity.
+Qed.
+
+Lemma put_member_spec m ns room sid eio m' ok :
+  Struct m -> room_ok room -> put_member m ns room sid eio = (m', ok) ->
+  Struct m' /\ pending m' = pending m /\ callbacks m' = callbacks m /\
+  (ok = true -> ins_eq m m' ns room sid eio /\
+                (mem m ns room sid = Some eio \/ forall s', mem m ns room s' <> Some eio)) /\
+  (ok = false -> same_mem m m' /\ exists s0, s0 <> sid /\ mem m ns room s0 = Some eio).
+Proof.
+  intros HS Hr. rewrite put_member_unfold. unfold bd_put.
+  destruct (bd_inv (look m ns room) eio) as [s0|] eqn:Ei.
+  - pose proof (bd_inv_some _ _ _ Ei) as Hin. apply bd_get_in in Hin; [|apply struct_look, HS].
+    destruct (put_same m ns room HS Hr) as [H1 H2].
+    destruct (str_eqb s0 sid) eqn:E0; intro H; inversion H; subst m' ok; clear H.
+    + apply str_eqb_eq in E0. subst s0.
+      split; [exact H1|]. split; [reflexivity|]. split; [reflexivity|]. split; [|discriminate].
+      intros _. split; [|left; exact Hin].
+      intros ns' r' s' Hr'. rewrite H2 by assumption.
+      destruct (str_eqb ns ns' && room_eqb room r' && str_eqb sid s') eqn:C; [|reflexivity].
+      apply cond3_true in C as (-> & -> & ->); auto.
+    + split; [exact H1|]. split; [reflexivity|]. split; [reflexivity|]. split; [discriminate|].
+      intros _. split; [exact H2|]. exists s0. split; [|exact Hin].
+      intro; subst. rewrite str_eqb_refl in E0. discriminate.
+  - destruct (put_ins m ns room sid eio HS Hr) as [H1 H2].
+    intro H; inversion H; subst m' ok; clear H.
+    split; [exact H1|]. split; [reflexivity|]. split; [reflexivity|]. split; [|discriminate].
+    intros _. split; [exact H2|]. right. intros s' Hs'.
+    apply bd_get_in in Hs'; [|apply struct_look, HS]. exact (bd_inv_none _ _ _ Ei Hs').
+Qed.
+
+(* ---- enter_room ---- *)
+Lemma enter_room_unfold m sid ns room :
+  enter_room m sid ns room =
+  match ns_rooms m ns with
+  | None => (m, Err ValueError)
+  | Some _ =>
+      match mem m ns PNone sid with
+      | None => (m, Err KeyError)
+      | Some eio => let '(m', ok) := put_member m ns room sid eio in
+                    (m', if ok then Ok tt else Err OtherError)
+      end
+  end.
+Proof.
+  unfold enter_room, put_member, mem, look, nsmap, agetd, ns_rooms.
+  destruct (aget str_eqb (rooms m) ns) as [rm|]; [|reflexivity].
+  destruct (aget room_eqb rm PNone) as [b0|]; [|reflexivity].
+  destruct (bd_get b0 sid) as [eio|]; [|reflexivity].
+  destruct (bd_put _ sid eio); reflexivity.
+Qed.
+
+Lemma enter_room_spec m sid ns room m' res :
+  WF m -> room_ok room -> enter_room m sid ns room = (m', res) ->
+  WF m' /\ pending m' = pending m /\ callbacks m' = callbacks m /\
+  match res with
+  | Ok _ => exists eio, mem m ns PNone sid = Some eio /\ ins_eq m m' ns room sid eio
+  | Err e => m' = m /\ (e = ValueError /\ ns_rooms m ns = None \/
+                        e = KeyError /\ ns_rooms m ns <> None /\ mem m ns PNone sid = None)
+  end.
+Proof.
+  intros [HS HM] Hr. rewrite enter_room_unfold.
+  destruct (ns_rooms m ns) as [rm|] eqn:Ens.
+  2: { intro H; inversion H; subst m' res. split; [split; assumption|].
+       split; [reflexivity|]. split; [reflexivity|]. split; [reflexivity|]. left; split; reflexivity. }
+  destruct (mem m ns PNone sid) as [eio|] eqn:E0.
+  2: { intro H; inversion H; subst m' res. split; [split; assumption|].
+       split; [reflexivity|]. split; [reflexivity|]. split; [reflexivity|].
+       right. split; [reflexivity|]. split; [discriminate|reflexivity]. }
+  destruct (put_member m ns room sid eio) as [m1 ok] eqn:Ep.
+  destruct (put_member_spec _ _ _ _ _ _ _ HS Hr Ep) as (HS1 & Hp1 & Hc1 & Ht & Hf).
+  intro H; inversion H; subst m' res; clear H.
+  destruct ok.
+  - destruct (Ht eq_refl) as [Hi Hu].
+    split; [|split; [exact Hp1|split; [exact Hc1|exists eio; split; [reflexivity|exact Hi]]]].
+    split; [exact HS1|]. eapply sem_insert; eauto.
+    + intros ->. split; [right; exact E0|]. intros s' Hs'. destruct HM as [_ H2]. eapply H2; eauto.
+  - exfalso. destruct (Hf eq_refl) as [_ (s0 & Hne & Hs0)]. destruct HM as [H3 H2].
+    apply Hne. eapply H2; [eapply H3; eauto|exact E0].
+Qed.
+
+(* ---- mgr_connect ---- *)
+Definition fresh_sid (m : mgr) (sid : str) : Prop := sid <> [] /\ forall ns, mem m ns PNone sid = None.
+
+Lemma mgr_connect_spec m eio ns sid m' r :
+  WF m -> fresh_sid m sid -> mgr_connect m eio ns sid = (m', r) ->
+  WF m' /\ pending m' = pending m /\ callbacks m' = callbacks m /\
+  match r with
+  | Some s => s = sid /\ (forall s', mem m ns PNone s' <> Some eio) /\
+      forall ns' r' s', room_ok r' ->
+        mem m' ns' r' s' = if str_eqb ns ns' && str_eqb sid s' && (room_eqb PNone r' || room_eqb (PStr sid) r')
+                           then Some eio else mem m ns' r' s'
+  | None => same_mem m m' /\ exists s0, mem m ns PNone s0 = Some eio
+  end.
+Proof.
+  intros [HS HM] [Hne Hfr]. unfold mgr_connect.
+  destruct (put_member m ns PNone sid eio) as [m1 ok] eqn:E1.
+  destruct (put_member_spec _ _ _ _ _ _ _ HS room_ok_None E1) as (HS1 & Hp1 & Hc1 & Ht & Hf).
+  destruct ok.
+  - destruct (Ht eq_refl) as [Hi Hu]. destruct Hu as [Hu|Hu]; [rewrite Hfr in Hu; discriminate|].
+    assert (HM1 : Sem m1).
+    { eapply sem_insert; eauto using room_ok_None.
+      - intros _. split; [left; apply Hfr|]. intros s' Hs'. exfalso. eapply Hu; eauto.
+      - intro N; congruence. }
+    assert (Hsr : room_ok (PStr sid)) by (apply room_ok_sid; exact Hne).
+    assert (Hn1 : mem m1 ns PNone sid = Some eio).
+    { rewrite Hi by apply room_ok_None. rewrite !str_eqb_refl, room_refl by apply room_ok_None. reflexivity. }
+    destruct (put_member m1 ns (PStr sid) sid eio) as [m2 ok2] eqn:E2.
+    destruct (put_member_spec _ _ _ _ _ _ _ HS1 Hsr E2) as (HS2 & Hp2 & Hc2 & Ht2 & Hf2).
+    intro H; inversion H; subst m' r; clear H.
+    destruct ok2.
+    + destruct (Ht2 eq_refl) as [Hi2 _].
+      split; [split; [exact HS2|]|].
+      { eapply sem_insert; eauto. - intro N; discriminate N. }
+      split; [congruence|]. split; [congruence|]. split; [reflexivity|]. split; [exact Hu|].
+      intros ns' r' s' Hr'. rewrite Hi2, Hi by assumption.
+      destruct (str_eqb ns ns'), (str_eqb sid s'), (room_eqb PNone r'), (room_eqb (PStr sid) r'); reflexivity.
+    + exfalso. destruct (Hf2 eq_refl) as [_ (s0 & Hne0 & Hs0)]. destruct HM1 as [H3 H2].
+      apply Hne0. eapply H2; [eapply H3; eauto|exact Hn1].
+  - intro H; inversion H; subst m' r; clear H. destruct (Hf eq_refl) as [Hs (s0 & _ & Hs0)].
+    split; [split; [exact HS1|eapply sem_same; eauto]|].
+    split; [exact Hp1|]. split; [exact Hc1|]. split; [exact Hs|]. exists s0. exact Hs0.
 Qed.
